@@ -167,12 +167,13 @@ CONSTEXPR_F fields n_day(year_t y, month_t m, diff_t d, diff_t cd,
 CONSTEXPR_F fields n_mon(year_t y, diff_t m, diff_t d, diff_t cd,
                          hour_t hh, minute_t mm, second_t ss) noexcept {
   if (m != 12) {
-    y += m / 12;
+    diff_t cy = m / 12;  // the net year carry is applied in a single step
     m %= 12;
     if (m <= 0) {
-      y -= 1;
+      cy -= 1;
       m += 12;
     }
+    y += cy;
   }
   return n_day(y, static_cast<month_t>(m), d, cd, hh, mm, ss);
 }
